@@ -1,6 +1,6 @@
 (* Model: mirror of script/mod.rs eval_from_bytes_bitcoin over the rust-bitcoin 0.32.5 predicates it calls
    (OP_RETURN payload = the single push after OP_RETURN, else bytes[2..]; local is_bare_multisig). C05 / C14 / C16 *)
-From RBP Require Import Bytes Hashes Base58 Utf8 Bech32.
+From RBP Require Import Bytes Hashes Base58 Utf8 Bech32 Segwit.
 
 (* ---- rust-bitcoin Instructions iterator ---- *)
 Inductive instr := IPush (d:bytes) | IOp (c:N).
@@ -74,22 +74,6 @@ Definition return_or_illegal (c:N) : bool :=
   || (c =? 0x6a) || (c =? 0x50) || (c =? 0x89) || (c =? 0x8a) || (c =? 0x62) || (0xba <=? c).
 
 (* ---- bech32 / bech32m segwit address ---- *)
-Definition hrp_expand (h:list N) : list N := map (fun c => N.shiftr c 5) h ++ [0] ++ map (fun c => N.land c 31) h.
-Fixpoint regroup (acc bits:N) (l:bytes) : list N :=   (* 8 -> 5 bits with padding *)
-  match l with
-  | [] => if bits =? 0 then [] else [N.land (N.shiftl acc (5 - bits)) 31]
-  | b :: r => let acc := N.lor (N.shiftl acc 8) b in let bits := bits + 8 in
-              if 10 <=? bits then N.land (N.shiftr acc (bits - 5)) 31 :: N.land (N.shiftr acc (bits - 10)) 31
-                                  :: regroup (N.land acc (N.ones (bits - 10))) (bits - 10) r
-              else N.land (N.shiftr acc (bits - 5)) 31 :: regroup (N.land acc (N.ones (bits - 5))) (bits - 5) r
-  end.
-Definition CHARSET : list N := (* qpzry9x8gf2tvdw0s3jn54khce6mua7l *)
-  [113; 112; 122; 114; 121; 57; 120; 56; 103; 102; 50; 116; 118; 100; 119; 48; 115; 51; 106; 110; 53; 52; 107; 104; 99; 101; 54; 109; 117; 97; 55; 108].
-Definition segwit_addr (hrp:list N) (ver:N) (prog:bytes) : list N :=
-  let data := ver :: regroup 0 0 prog in
-  let const := if ver =? 0 then 1 else 0x2bc830a3 in
-  hrp ++ [49] ++ map (fun d => nth (N.to_nat d) CHARSET 0) (data ++ checksum const (hrp_expand hrp ++ data)).
-
 (* ---- eval_from_bytes_bitcoin ---- *)
 Inductive bpattern := BOpReturn (d:bytes) | BMultiSig | BP2PK | BP2PKH | BP2SH | BP2WPKH | BP2WSH | BWitnessProgram | BP2TR | BUnspendable | BNotRecognised.
 Record net := { pkh_ver : N; sh_ver : N; hrp : list N }.
